@@ -70,6 +70,7 @@ func runUnitTasks(uc *UnitCase, tape *Tape, fns []func(), stats *Stats) (deadloc
 		synctest.Test(unitT, func(t *testing.T) {
 			sc := verifsim.Activate()
 			sc.ArmAll = uc.ArmAll
+			sc.PoolPoints = uc.Kind == "c41"
 			sc.Draw = func(label string, n int) int {
 				if strings.HasPrefix(label, "order.map") && !uc.MapOrder {
 					return 0
@@ -887,7 +888,9 @@ type PoolCase struct {
 }
 
 func genC41Case(t *Tape) *UnitCase {
-	pc := &PoolCase{Cap: []int{0, 16, 64}[t.Draw("c41.cap", 3)], Free: t.Draw("c41.free", 2) == 1}
+	// (Free, real goroutines on the real sync.Pool, is no longer generated: a violation found that way does not
+	// replay. Under the scheduler sync.Pool is verifsim's deterministic free list with schedule points at Get/Put.)
+	pc := &PoolCase{Cap: []int{0, 16, 64}[t.Draw("c41.cap", 3)]}
 	nt := 2 + t.Draw("c41.ntasks", 5)
 	for i := 0; i < nt; i++ {
 		var sizes []int
@@ -962,7 +965,12 @@ func runC41(uc *UnitCase, tape *Tape) *RunOutcome {
 					b2 = get(ti)
 					b2.WriteString("second")
 				}
-				// nobody else may have written into our buffer
+				// nobody else may have written into our buffer, or emptied it
+				if b.Len() != sz {
+					mu.Lock()
+					report(viol("C41", "buffer-shared", fmt.Sprintf("task %d wrote %d bytes into the buffer it holds and finds %d: another user touched it", ti, sz, b.Len()), -1, "cap", fmt.Sprint(pc.Cap > 0)))
+					mu.Unlock()
+				}
 				for _, c := range b.Bytes() {
 					if c != byte('a'+ti) {
 						mu.Lock()
